@@ -119,6 +119,16 @@ fn differing_fields<T: Debug>(want: &T, got: &T) -> String {
     if names.is_empty() { "?".to_string() } else { names.join("+") }
 }
 
+fn canon_difference<T: Battery>(input: &Value, model_of_read: &Value) -> Option<String> {
+    let mut a = canon::canon_with(input, T::MAP_PATHS, T::OPAQUE_PATHS);
+    let mut b = canon::canon_with(model_of_read, &[], T::OPAQUE_PATHS);
+    if T::VALUE_BODY {
+        a = canon::unwrap_value_body(a);
+        b = canon::unwrap_value_body(b);
+    }
+    canon::first_difference(&a, &b)
+}
+
 fn got_class<T: Debug + PartialEq>(want: &T, r: &Out<T>) -> String {
     match r {
         Out::Ok(t) => format!("Ok(different:{})", differing_fields(want, t)),
@@ -469,6 +479,7 @@ impl<T: Battery> TypeDyn for Holder<T> {
         add(&c.recon_evals, 1);
         match print3(x) {
             Err(p) => sink.report("recon", format!("type={} law=no_panic op=print_recon", T::NAME), size, &tie, base("no_panic", json!(p))),
+            Ok(_) if T::SKIP_RECON_ROUNDTRIP => {}
             Ok(texts) => {
                 let mut bad: Vec<(&str, String, String, String)> = vec![];
                 for (style, s) in &texts {
@@ -666,7 +677,7 @@ impl<T: Battery> TypeDyn for Holder<T> {
         if let (Out::Ok(x), Out::Ok(v)) = (&direct, &parsed) {
             add(&c.text_calls, 1);
             if let Ok(back) = guard(|| x.as_value()) {
-                if let Some(d) = canon::first_difference(&canon::canon_with(v, T::MAP_PATHS, T::OPAQUE_PATHS), &canon::canon_with(&back, &[], T::OPAQUE_PATHS)) {
+                if let Some(d) = canon_difference::<T>(v, &back) {
                     sink.report(
                         "agree",
                         format!("type={} law=accepted_input_matches_model source=recon at={}", T::NAME, d),
@@ -708,7 +719,7 @@ impl<T: Battery> TypeDyn for Holder<T> {
         if let (Out::Ok(x), Out::Ok(v)) = (&direct, &parsed) {
             add(&c.mpm_calls, 1);
             if let Ok(back) = guard(|| x.as_value()) {
-                if let Some(d) = canon::first_difference(&canon::canon_with(v, T::MAP_PATHS, T::OPAQUE_PATHS), &canon::canon_with(&back, &[], T::OPAQUE_PATHS)) {
+                if let Some(d) = canon_difference::<T>(v, &back) {
                     let h = hex(bytes);
                     sink.report(
                         "msgpack_agree",
@@ -759,7 +770,7 @@ fn registry(p: &Pools, cap: usize) -> Vec<Box<dyn TypeDyn>> {
         Gen<i32>, Gen<Named>, Gen<Vec<String>>, GenBody<E1>, Nest1, Nest2, VecStruct,
         E1, E2, Tagged, EnumHolder,
         ValSlot, ValBody, ValAttr, ValHdrBody, ValHdr, ValEnum,
-        Builtins, BuiltinPlaces, NestedColls,
+        Builtins, BuiltinPlaces, UnitAttr, NestedColls,
         i32, u64, f64, String, BigInt, BigUint, Vec<u8>, Vec<i32>, Option<i32>, Option<Named>,
         HashMap<String, i32>, (i32, String), std::time::Duration, swimos_model::Timestamp,
         swimos_utilities::future::RetryStrategy, Vec<Named>, Value,
